@@ -11,6 +11,7 @@ Notation map := (map K V).
 Lemma keeps_insert_ii_for_full k v u : keeps (insert_ii_for_full E k v u).
 Proof.
   intros w Hw. unfold insert_ii_for_full. apply wp_bind.
+  apply wp_on_unwind_frame; [apply frame_unwind_pair|].
   eapply wp_mono; [apply scan_spec; [intros; apply frame_test_k | exact Hw] | |]; cbn beta.
   - intros [i|] w' [Hs Hi].
     + destruct (WF_live _ _ Hw Hi) as [p Hp].
@@ -25,7 +26,7 @@ Proof.
     + apply wp_bind. apply wp_frame; [apply frame_drop_pair | |].
       * intros _ w'' Hs'. apply wp_ret. apply inv_post_refl; [exact Hw | congruence].
       * intros w'' Hs'. apply inv_post_refl; [exact Hw | congruence].
-  - intros w' Hs. apply inv_post_refl; auto.
+  - intros w' Hs w'' Hs''. apply inv_post_refl; [exact Hw | congruence].
 Qed.
 
 (* ---------- 2. keep_value ---------- *)
@@ -132,6 +133,7 @@ Lemma keeps_insert_i k v u w :
   wp (insert_i E debug k v u) (fun _ => inv_post w) (inv_post w) w.
 Proof.
   intros Hw Hd. unfold insert_i. apply wp_bind. apply wp_get_len. apply wp_bind.
+  apply wp_on_unwind_frame; [apply frame_unwind_pair|].
   eapply wp_mono; [apply (insert_i_loop_spec k (len (self w)) 0 w Hw); [lia | exact Hd] | |]; cbn beta.
   - intros [target existing] w'. cbn [fst snd]. destruct existing as [[old_k old_v]|].
     + intros (Ht & Hl & Hc & Hsl).
@@ -165,7 +167,7 @@ Proof.
       destruct u.
       * apply wp_bind. apply wp_p_write; [simp_w; rewrite Hs; exact Hc|]. apply wp_ret. apply Hfin.
       * apply wp_bind. apply wp_p_write; [simp_w; rewrite Hs; exact Hc|]. apply wp_ret. apply Hfin.
-  - intros w' Hs. apply inv_post_refl; auto.
+  - intros w' Hs w'' Hs''. apply inv_post_refl; [exact Hw | congruence].
 Qed.
 
 Lemma keeps_insert_unchecked k v w :
@@ -488,6 +490,15 @@ Proof.
   - auto.
 Qed.
 
+Lemma keeps_on_unwind {A} (cleanup : M unit) (c : M A) :
+  frame cleanup -> keeps c -> keeps (on_unwind cleanup c).
+Proof.
+  intros Hf Hc w Hw. apply wp_on_unwind_frame; [exact Hf|].
+  eapply wp_mono; [apply Hc; exact Hw | |]; cbn beta.
+  - auto.
+  - intros w' H w'' Hs. eapply inv_post_frame; eauto.
+Qed.
+
 Lemma frame_call_next (nx : T -> ans * T) : frame (@call_next K V T nx).
 Proof.
   unfold call_next. apply frame_bind; [apply frame_emit|]. intros _.
@@ -501,10 +512,12 @@ Lemma keeps_extend_loop nx items : keeps (extend_loop E debug nx items).
 Proof.
   induction items as [|[k v] rest IH]; cbn [extend_loop].
   - apply frame_keeps. apply frame_call_next.
-  - apply keeps_bind; [apply frame_keeps; apply frame_call_next|]. intros _.
+  - apply keeps_bind.
+    { apply keeps_on_unwind; [apply frame_unwind_pairs|]. apply frame_keeps; apply frame_call_next. }
+    intros _. apply keeps_bind; [|intros _; exact IH].
+    apply keeps_on_unwind; [apply frame_unwind_pairs|].
     apply keeps_bind; [apply keeps_insert|]. intros old.
-    apply keeps_bind; [apply frame_keeps; apply frame_drop_opt_val|]. intros _.
-    exact IH.
+    apply frame_keeps; apply frame_drop_opt_val.
 Qed.
 
 Lemma from_iter_safe nx items w :
